@@ -275,7 +275,7 @@ theorem NoNewHave.newOK {m m' : M} (h : NoNewHave m m') : NewOK m m' := by
 theorem HavesOK.next {m m' : M} (h : HavesOK m) (a : Adv m.1 m'.1) (hn : NewOK m m') : HavesOK m' := by
   intro o ho i hi
   rcases hn o ho with h' | h'
-  · exact diskOKi_mono a.bad i (h o h' i hi)
+  · exact diskOKi_mono a.cfg a.bad i (h o h' i hi)
   · exact h' i hi
 
 theorem HavesOK.nil (s : St) : HavesOK (s, []) := fun _ ho => by cases ho
@@ -296,7 +296,7 @@ theorem handleVerificationDone_newOK (m : M) : NewOK m (handleVerificationDone m
         subst this
         have hd' : m.1.diskOK.getD j false = true := by simpa using hd
         have := ((diskOK_getD m.1 j).1 hd').2
-        exact diskOKi_mono (handleVerificationDone_adv m).bad j this
+        exact diskOKi_mono (handleVerificationDone_adv m).cfg (handleVerificationDone_adv m).bad j this
     · exact Or.inr (fun i hi => absurd hi (h1 i))
 
 theorem runWorkers_havesOK (fuel : Nat) (m : M) (h : Sound0 m.1) (hv : HavesOK m) :
